@@ -191,6 +191,118 @@ fn ref_apply(rows: &mut Vec<Row>, s: &Stmt) -> Result<u64, Overflow> {
     }
 }
 
+// ---------------------------------------------------------------- input classes of the two known findings
+/// constant folding (Some(v): the expression has value v on every row)
+fn cf_i(e: &IE) -> Option<Val> {
+    let bin = |a: &IE, b: &IE, f: fn(i64, i64) -> Option<i64>| -> Option<Val> {
+        match (cf_i(a), cf_i(b)) {
+            (Some(None), _) | (_, Some(None)) => Some(None),
+            (Some(Some(x)), Some(Some(y))) => f(x, y).map(Some),
+            _ => None,
+        }
+    };
+    match e {
+        IE::Col(_) => None,
+        IE::Lit(z) => Some(Some(*z)),
+        IE::Null => Some(None),
+        IE::Add(a, b) => bin(a, b, i64::checked_add),
+        IE::Sub(a, b) => bin(a, b, i64::checked_sub),
+        IE::Mul(a, b) => bin(a, b, i64::checked_mul),
+    }
+}
+fn cf_b(p: &BE) -> Option<Option<bool>> {
+    match p {
+        BE::Lit(b) => Some(Some(*b)),
+        BE::Null => Some(None),
+        BE::Cmp(op, a, b) => match (cf_i(a), cf_i(b)) {
+            (Some(None), _) | (_, Some(None)) => Some(None),
+            (Some(Some(x)), Some(Some(y))) => Some(Some(match *op { "=" => x == y, "<>" => x != y, "<" => x < y, "<=" => x <= y, ">" => x > y, _ => x >= y })),
+            _ => None,
+        },
+        BE::And(p, q) => match (cf_b(p), cf_b(q)) {
+            (Some(Some(false)), _) | (_, Some(Some(false))) => Some(Some(false)),
+            (Some(Some(true)), Some(Some(true))) => Some(Some(true)),
+            (Some(_), Some(_)) => Some(None),
+            _ => None,
+        },
+        BE::Or(p, q) => match (cf_b(p), cf_b(q)) {
+            (Some(Some(true)), _) | (_, Some(Some(true))) => Some(Some(true)),
+            (Some(Some(false)), Some(Some(false))) => Some(Some(false)),
+            (Some(_), Some(_)) => Some(None),
+            _ => None,
+        },
+        BE::Not(p) => cf_b(p).map(|v| v.map(|b| !b)),
+        BE::IsNull(a) => cf_i(a).map(|v| Some(v.is_none())),
+        BE::IsNotNull(a) => cf_i(a).map(|v| Some(v.is_some())),
+    }
+}
+/// the WHERE clause folds to FALSE or NULL
+fn folds_away(w: &Option<BE>) -> bool {
+    match w { Some(p) => matches!(cf_b(p), Some(Some(false)) | Some(None)), None => false }
+}
+/// which of TRUE (1) / FALSE (2) / NULL (4) the predicate can take at all (over-approximation):
+/// the simplifier also folds predicates that are not constant but can never be TRUE (NULL AND p, ...)
+fn may_b(p: &BE) -> u8 {
+    let comb = |x: u8, y: u8, f: fn(Option<bool>, Option<bool>) -> Option<bool>| -> u8 {
+        let vals = [(1u8, Some(true)), (2, Some(false)), (4, None)];
+        let mut out = 0;
+        for (mx, vx) in vals { for (my, vy) in vals { if x & mx != 0 && y & my != 0 {
+            out |= match f(vx, vy) { Some(true) => 1, Some(false) => 2, None => 4 };
+        } } }
+        out
+    };
+    match p {
+        BE::Lit(true) => 1,
+        BE::Lit(false) => 2,
+        BE::Null => 4,
+        BE::Cmp(..) => match cf_b(p) { Some(Some(true)) => 1, Some(Some(false)) => 2, Some(None) => 4, None => 7 },
+        BE::And(p, q) => comb(may_b(p), may_b(q), |x, y| match (x, y) { (Some(false), _) | (_, Some(false)) => Some(false), (Some(true), Some(true)) => Some(true), _ => None }),
+        BE::Or(p, q) => comb(may_b(p), may_b(q), |x, y| match (x, y) { (Some(true), _) | (_, Some(true)) => Some(true), (Some(false), Some(false)) => Some(false), _ => None }),
+        BE::Not(p) => { let m = may_b(p); (if m & 1 != 0 { 2 } else { 0 }) | (if m & 2 != 0 { 1 } else { 0 }) | (m & 4) }
+        BE::IsNull(_) | BE::IsNotNull(_) => match cf_b(p) { Some(Some(true)) => 1, Some(Some(false)) => 2, _ => 3 },
+    }
+}
+/// the WHERE clause can never be TRUE
+fn never_true(w: &Option<BE>) -> bool { match w { Some(p) => may_b(p) & 1 == 0, None => false } }
+
+fn arith_key(e: &IE) -> String {
+    match e {
+        IE::Add(a, b) | IE::Mul(a, b) => {
+            let (mut x, mut y) = (arith_key(a), arith_key(b));
+            if x > y { std::mem::swap(&mut x, &mut y); }
+            format!("({} {} {})", x, if matches!(e, IE::Add(..)) { "+" } else { "*" }, y)
+        }
+        IE::Sub(a, b) => format!("({} - {})", arith_key(a), arith_key(b)),
+        _ => ie_sql(e),
+    }
+}
+fn arith_nodes_i(e: &IE, out: &mut Vec<String>) {
+    match e {
+        IE::Add(a, b) | IE::Sub(a, b) | IE::Mul(a, b) => { out.push(arith_key(e)); arith_nodes_i(a, out); arith_nodes_i(b, out); }
+        _ => {}
+    }
+}
+fn arith_nodes_b(p: &BE, out: &mut Vec<String>) {
+    match p {
+        BE::Cmp(_, a, b) => { arith_nodes_i(a, out); arith_nodes_i(b, out); }
+        BE::And(p, q) | BE::Or(p, q) => { arith_nodes_b(p, out); arith_nodes_b(q, out); }
+        BE::Not(p) => arith_nodes_b(p, out),
+        BE::IsNull(a) | BE::IsNotNull(a) => arith_nodes_i(a, out),
+        _ => {}
+    }
+}
+fn has_dup(mut v: Vec<String>) -> bool { let n = v.len(); v.sort(); v.dedup(); v.len() != n }
+/// a repeated arithmetic subexpression inside the WHERE clause or inside the SET list
+fn repeats_subexpr(s: &Stmt) -> bool {
+    let (asg, w) = match s { Stmt::Insert { .. } => return false, Stmt::Delete { w } => (None, w), Stmt::Update { asg, w } => (Some(asg), w) };
+    let mut a = vec![];
+    if let Some(p) = w { arith_nodes_b(p, &mut a); }
+    let mut b = vec![];
+    if let Some(asg) = asg { for (_, e) in asg { arith_nodes_i(e, &mut b); } }
+    has_dup(a) || has_dup(b)
+}
+fn stmt_where(s: &Stmt) -> Option<&Option<BE>> { match s { Stmt::Insert { .. } => None, Stmt::Delete { w } => Some(w), Stmt::Update { w, .. } => Some(w) } }
+
 // ---------------------------------------------------------------- generators
 fn gen_val(rng: &mut Rng) -> Val { if rng.chance(3, 10) { None } else { Some(rng.range(-2, 4)) } }
 fn gen_row(rng: &mut Rng) -> Row { (0..NCOLS).map(|_| gen_val(rng)).collect() }
@@ -264,6 +376,37 @@ fn gen_stmt(rng: &mut Rng) -> Stmt {
     }
 }
 
+/// main stream: statements outside the two known-finding classes
+fn gen_clean_stmt(rng: &mut Rng) -> Stmt {
+    loop {
+        let s = gen_stmt(rng);
+        let fold = stmt_where(&s).map(never_true).unwrap_or(false);
+        if !fold && !repeats_subexpr(&s) { return s; }
+    }
+}
+/// statements inside the known-finding classes (constant WHERE / repeated subexpression)
+fn gen_known_stmt(rng: &mut Rng) -> Stmt {
+    let gt = |c: usize, z: i64| BE::Cmp(">", IE::Col(c), IE::Lit(z));
+    if rng.chance(2, 3) {
+        let w = match rng.below(6) {
+            0 => BE::Lit(false),
+            1 => BE::Null,
+            2 => BE::Cmp("=", IE::Lit(1), IE::Lit(2)),
+            3 => BE::Cmp("=", IE::Col(rng.below(3) as usize), IE::Null),
+            4 => BE::And(Box::new(gt(rng.below(3) as usize, 0)), Box::new(BE::Lit(false))),
+            _ => BE::Not(Box::new(BE::Lit(true))),
+        };
+        if rng.chance(1, 2) { Stmt::Delete { w: Some(w) } } else { Stmt::Update { asg: vec![(rng.below(3) as usize, IE::Lit(9))], w: Some(w) } }
+    } else {
+        let bc = || IE::Add(Box::new(IE::Col(1)), Box::new(IE::Col(2)));
+        if rng.chance(1, 2) {
+            Stmt::Delete { w: Some(BE::Or(Box::new(BE::Cmp(">", bc(), IE::Lit(1))), Box::new(BE::Cmp("<", bc(), IE::Lit(0))))) }
+        } else {
+            Stmt::Update { asg: vec![(0, bc()), (1, bc())], w: None }
+        }
+    }
+}
+
 fn gen_table(rng: &mut Rng) -> Vec<Vec<Vec<Row>>> {
     let nparts = 1 + rng.below(3) as usize;
     (0..nparts).map(|_| {
@@ -318,6 +461,15 @@ async fn exec(ctx: &SessionContext, t: &MemTable, sql: &str) -> Result<Obs, Stri
     Ok(Obs { count: counts[0], table, select })
 }
 
+/// which of the known mechanisms (if any) the statement runs into: inspect the optimized logical plan
+async fn classify(ctx: &SessionContext, sql: &str) -> &'static str {
+    let st = ctx.state();
+    let plan = match st.create_logical_plan(sql).await { Ok(p) => p, Err(_) => return "none" };
+    if !matches!(plan, datafusion_expr::LogicalPlan::Dml(_)) { return "none"; }
+    let text = match st.optimize(&plan) { Ok(p) => format!("{}", p.display_indent()), Err(_) => return "none" };
+    if text.contains("__common_expr") { "cse" } else if text.contains("EmptyRelation") { "fold" } else { "none" }
+}
+
 fn sorted(mut v: Vec<Row>) -> Vec<Row> { v.sort(); v }
 fn flat(t: &[Vec<Vec<Row>>]) -> Vec<Row> { t.iter().flatten().flatten().cloned().collect() }
 
@@ -333,12 +485,18 @@ fn run_history(rt: &tokio::runtime::Runtime, id: u64, tp: usize, init: &[Vec<Vec
     let mut why = String::new();
     let mut done = 0;
     let mut overflow = false;
+    let mut class = "none";
+    let mut cf = false;
     for (k, s) in stmts.iter().enumerate() {
         let sql = stmt_sql(s);
         let before = refrows.clone();
         let rc = match ref_apply(&mut refrows, s) { Ok(c) => c, Err(_) => { overflow = true; break; } };
         match rt.block_on(exec(&ctx, &t, &sql)) {
-            Err(e) => { ok = false; why = format!("statement {k} `{sql}` failed: {e}"); break; }
+            Err(e) => {
+                ok = false; why = format!("statement {k} `{sql}` failed: {e}");
+                class = rt.block_on(classify(&ctx, &sql));
+                break;
+            }
             Ok(o) => {
                 obs_json.push(format!("{{\"count\":{},\"table\":{},\"select\":{}}}", o.count, table_json(&o.table), rows_json(&o.select)));
                 done = k + 1;
@@ -350,12 +508,16 @@ fn run_history(rt: &tokio::runtime::Runtime, id: u64, tp: usize, init: &[Vec<Vec
                 } else if sorted(flat(&o.table)) != want {
                     ok = false; why = format!("after statement {k} `{sql}` the stored batches hold {} but the reference table is {}", rows_json(&sorted(flat(&o.table))), rows_json(&want));
                 }
-                if !ok { break; }
+                if !ok {
+                    class = rt.block_on(classify(&ctx, &sql));
+                    cf = stmt_where(s).map(folds_away).unwrap_or(false);
+                    break;
+                }
             }
         }
     }
-    format!("{{\"id\":{},\"tp\":{},\"init\":{},\"stmts\":[{}],\"sql\":[{}],\"obs\":[{}],\"done\":{},\"overflow\":{},\"ok\":{},\"why\":{}}}",
-        id, tp, table_json(init),
+    format!("{{\"id\":{},\"tp\":{},\"class\":\"{}\",\"cf\":{},\"init\":{},\"stmts\":[{}],\"sql\":[{}],\"obs\":[{}],\"done\":{},\"overflow\":{},\"ok\":{},\"why\":{}}}",
+        id, tp, class, cf, table_json(init),
         stmts.iter().map(stmt_json).collect::<Vec<_>>().join(","),
         stmts.iter().map(|s| json_str(&stmt_sql(s))).collect::<Vec<_>>().join(","),
         obs_json.join(","), done, overflow, ok, json_str(&why))
@@ -392,13 +554,15 @@ fn main() {
     for id in 0..n {
         let init = gen_table(&mut rng);
         let ns = 3 + rng.below(8) as usize;
-        let stmts: Vec<Stmt> = (0..ns).map(|_| gen_stmt(&mut rng)).collect();
+        let mut stmts: Vec<Stmt> = (0..ns).map(|_| gen_clean_stmt(&mut rng)).collect();
+        // every 10th history ends with a statement from the known-finding classes
+        if id % 10 == 9 { let k = stmts.len() - 1; stmts[k] = gen_known_stmt(&mut rng); }
         let tp = 1 + rng.below(4) as usize;
         let line = match catch_unwind(AssertUnwindSafe(|| run_history(&rt, id, tp, &init, &stmts))) {
             Ok(l) => l,
             Err(p) => {
                 let msg = p.downcast_ref::<String>().cloned().or_else(|| p.downcast_ref::<&str>().map(|s| s.to_string())).unwrap_or_default();
-                format!("{{\"id\":{},\"tp\":{},\"init\":{},\"stmts\":[{}],\"sql\":[{}],\"obs\":[],\"done\":0,\"overflow\":false,\"ok\":false,\"why\":{}}}",
+                format!("{{\"id\":{},\"tp\":{},\"class\":\"none\",\"cf\":false,\"init\":{},\"stmts\":[{}],\"sql\":[{}],\"obs\":[],\"done\":0,\"overflow\":false,\"ok\":false,\"why\":{}}}",
                     id, tp, table_json(&init), stmts.iter().map(stmt_json).collect::<Vec<_>>().join(","),
                     stmts.iter().map(|s| json_str(&stmt_sql(s))).collect::<Vec<_>>().join(","), json_str(&format!("panic: {msg}")))
             }
